@@ -16,7 +16,7 @@ TEXT = {
 
 def table(dav):
     checks = []
-    claimed = ["C01"]
+    claimed = ["C01", "C02", "C03", "C06", "C07", "C08", "C09", "C14", "C17"]
     for pid in claimed:
         checks.append(dav(pid, TEXT.get(pid, TEXT["C01"]),
                           "TLA+ model checking (TLC) + trace validation of recorded executions against the spec"))
